@@ -91,7 +91,7 @@ def run(ctx: common.Ctx):
         "symbolic tags: int, str, tuple, frozenset, bytes, a user-defined hashable class",
     ]
     ctx.lean_obligations("PtProofs.C09", THEOREMS)
-    n = 2500 if ctx.thorough else 260
+    n = 12000 if ctx.thorough else 600
     tasks = [{"seed": ctx.seed, "index": i, "profile": "default"} for i in range(n)]
     tasks += [{"seed": ctx.seed, "index": i, "profile": "small"} for i in range(n // 3)]
     try:
@@ -99,8 +99,9 @@ def run(ctx: common.Ctx):
     except distwork.WorkTimeout as e:
         raise common.LeanError(f"C09 work pool timed out: {e}")
     dist = collections.Counter()
+    bad_programs: list = []
     queries, qmeta = [], []
-    n_py = n_py_dis = n_ver = n_ver_dis = n_tag = n_tag_dis = n_parts = n_parts_dis = 0
+    n_py = n_py_dis = n_ver = n_ver_dis = n_tag = n_tag_dis = n_parts = n_parts_dis = n_comm = 0
     for t, res in zip(tasks, results):
         if res.get("timeout"):
             raise common.LeanError(f"C09: program {t} timed out inside fakempi")
@@ -121,11 +122,13 @@ def run(ctx: common.Ctx):
                           "find_distributed_partition returns no partition for a valid program: "
                           + json.dumps(res["ranks_find"]), dict(replay, ranks=res["ranks_find"]))
             continue
+        n_comm += st["ncomm"] > 0
         # verify accepts?
         n_ver += 1
         rv = res["ranks_verify"]
         if not all(r["status"] == "ok" for r in rv):
             n_ver_dis += 1
+            bad_programs.append({"program": prog})
             raised = [r for r in rv if r["status"] == "raised"] or [{"exc": "?", "stage": "?"}]
             sig = f"verify-rejects:{raised[0]['exc']}"
             if raised[0]["exc"] == "AssertionError" and pat["send_of_unmodified_recv"] and \
@@ -137,6 +140,7 @@ def run(ctx: common.Ctx):
         n_py += 1
         if res["py_clauses"]:
             n_py_dis += 1
+            bad_programs.append({"program": prog})
             for c in res["py_clauses"]:
                 head = c.split(":")[0]
                 sig = "partition:" + _CLAUSE_OF_PY.get(head, head)
@@ -151,12 +155,14 @@ def run(ctx: common.Ctx):
         tgs = [p for p in res["problems"] if p.startswith("tags:")]
         if pbs:
             n_parts_dis += 1
+            bad_programs.append({"program": prog})
             for pbm in pbs:
                 ctx.violation("partition:" + pbm.split(":")[0], f"{pbm} ({prog})", dict(replay, problem=pbm))
         hard_tag = [p for p in tgs if p.split(":")[1] in ("ends-disagree", "collision", "not-an-integer",
                                                            "next-tag-differs", "ranks-apply-different-tables")]
         if tgs:
             n_tag_dis += 1
+            bad_programs.append({"program": prog})
         for pbm in hard_tag:
             ctx.violation("tags:" + pbm.split(":")[1], f"{pbm} ({prog})", dict(replay, problem=pbm))
         if tgs and not hard_tag:
@@ -185,6 +191,7 @@ def run(ctx: common.Ctx):
             n_wf += 1
             if a != "ok true":
                 n_wf_dis += 1
+                bad_programs.append({"program": prog})
                 if not res["py_clauses"]:
                     # Lean's checker rejects, the independent Python check found nothing: no failing input
                     ctx.broken.append(f"correspondence:checkWF-rejects-real-partition:{a[:120]}:{prog}")
@@ -199,6 +206,7 @@ def run(ctx: common.Ctx):
             real = [sorted(tuple(c) for c in b) for b in res["batches"]]
             if model != real:
                 n_b_dis += 1
+                bad_programs.append({"program": prog})
                 if not any(v["signature"] == "batches:dependency-order" for v in ctx.violations):
                     ctx.broken.append(f"correspondence:batches-differ-from-model:{prog}")
         else:
@@ -214,17 +222,23 @@ def run(ctx: common.Ctx):
                       and real_map[1] == model_next and res["next_tag"] == model_next)
             if not ok:
                 n_nt_dis += 1
+                bad_programs.append({"program": prog})
                 ctx.broken.append(f"correspondence:tag-table-differs-from-numberTags:{prog}")
-    ctx.note_batch("checkWF-on-real-partitions", n_wf, n_wf_dis,
-                   how="ptdriver runs the verified checker on the union of all ranks' partitions")
-    ctx.note_batch("python-clause-check", n_py, n_py_dis, how="the seven clauses checked directly on the records")
-    ctx.note_batch("verify-accepts", n_ver, n_ver_dis)
-    ctx.note_batch("parts-vs-batches", n_parts, n_parts_dis,
-                   how="each rank's parts == the part structure dictated by the broadcast batches")
-    ctx.note_batch("batches-vs-model", n_b, n_b_dis, how="broadcast comm_batches == Lean batches of the program graph")
-    ctx.note_batch("tags-across-ranks", n_tag, n_tag_dis)
-    ctx.note_batch("tag-table-vs-numberTags", n_nt, n_nt_dis)
-    ctx.coverage["programs"] = dict(sorted(dist.items()))
+    n_prog = n_ver
+    bad_prog = len({json.dumps(v.get("program")) for v in bad_programs})
+    ctx.note_batch("real-partitions-vs-contract-and-model", n_prog, bad_prog, nontrivial=n_comm,
+                   how="one case per generated program, partitioned by the real code on all ranks; comparisons: "
+                       "checkWF in ptdriver, the seven clauses in Python, verify's verdict, parts vs broadcast "
+                       "batches, batches vs Lean model, integer tags across ranks, tag table vs Lean numberTags",
+                   comparisons={"checkWF": [n_wf, n_wf_dis], "python_clauses": [n_py, n_py_dis],
+                                "verify_accepts": [n_ver, n_ver_dis], "parts_vs_batches": [n_parts, n_parts_dis],
+                                "batches_vs_model": [n_b, n_b_dis], "tags_across_ranks": [n_tag, n_tag_dis],
+                                "tag_table_vs_numberTags": [n_nt, n_nt_dis]})
+    ctx.coverage["programs"] = len(tasks)
+    ctx.coverage["program_distribution"] = dict(sorted(dist.items()))
+    ctx.coverage["rule"] = ("a case = one generated multi-rank program (seed, index, profile), partitioned by the real "
+                            "code on all ranks; programs are distinct by construction of the index stream; "
+                            "non-trivial = at least one message")
     ctx.broken = sorted(set(ctx.broken))[:30]
 
 
